@@ -5,12 +5,49 @@ import json, os, sys
 ROOT = os.path.dirname(os.path.dirname(os.path.abspath(__file__)))
 
 # id -> (level, technique, level text, level note, design ref)
+def T(level, tech, text, note, ref):
+    return (level, tech, text, note, ref)
+
+RM = "runtime monitoring of the real transport in testing/synctest virtual time: "
 CHECKS = {
- "C01": ("exploration",
-   "runtime monitor (reference RFC 9111 age/lifetime oracle) over executions of the real transport in virtual time: exhaustive lifetime-source grid x boundary elapsed times x request directives, plus random histories under the race detector",
-   "Every lookup answered from the store without origin contact is judged by an independent saturating age/lifetime computation fed from the harness's own records; held = no surely-stale serve without max-stale / only-if-cached / stale-while-revalidate on the cases executed. Exploration is the right level: the statement quantifies over header values, delays and elapsed times that virtual time makes cheap to enumerate, but not over a finite state space.",
-   "trusts testing/synctest virtual time, the harness oracle (self-tested) and the token identities; +-1 s guard bands at heuristic / max-stale / SWR boundaries are not judged",
-   "DESIGN.md 4 C01"),
+ "C01": T("exploration", RM + "reference RFC 9111 age/lifetime oracle on every from-store answer; exhaustive lifetime-source grid x boundary elapsed times x request directives, plus random histories under the race detector",
+   "Every lookup answered from the store without origin contact is judged by an independent saturating age/lifetime computation fed from the harness's own records; held = no surely-stale serve without max-stale / only-if-cached / stale-while-revalidate on the cases executed.",
+   "trusts testing/synctest virtual time, the harness oracle and the token identities; +-1 s guard bands at heuristic / max-stale / SWR boundaries are not judged", "DESIGN.md 4 C01"),
+ "C02": T("exploration", RM + "universal monitor (validation demanded => a 304 was obtained in this exchange, or the origin's own answer returned), validation-request and request-object snapshots, over random histories under the race detector",
+   "Flags every from-store answer without a 304 in the same exchange where stored no-cache / stale must-revalidate / request no-cache / exceeded request max-age / a qualified no-cache field apply; checks validation requests and that the caller's request object is unchanged.",
+   "client-supplied conditionals and duplicated directives are not judged", "DESIGN.md 4 C02"),
+ "C03": T("exploration", RM + "bulk store/lookup of URI sets (all pairs implied) judged by an independent RFC 3986 equivalence classifier; every method and GET+Range against a populated cache; random histories",
+   "A foreign body token returned for a URI the classifier calls distinct, or any from-store answer to a non-GET / Range request, is a violation.",
+   "pairs classified unknown (userinfo, '?' vs none, %2E dot segments, raw vs encoded non-ASCII, opaque vs hierarchical) are not judged", "DESIGN.md 4 C03"),
+ "C04": T("exploration", RM + "universal monitor comparing the request that fetched the body with the current request on every nominated Vary field (aggressive normalisation => only sure differences count), over random histories with changing Vary sets",
+   "A from-store, unvalidated answer whose stored Vary nominates a field on which the two requests surely differ, or whose Vary has a '*' member, is a violation.",
+   "values the aggressive normaliser equates are not judged; true 64-bit hash collisions are not sought", "DESIGN.md 4 C04"),
+ "C06": T("exploration", RM + "monitor on every Set reaching the recording driver.Conn (values scanned for body tokens / X-Msg ids of messages that must not be stored), over random histories",
+   "Any store write containing a message whose request/response forbids storing (no-store, non-GET, Range, 1xx/206/304, must-understand with unknown status, no freshness + non-heuristic status, failed body) and any unconditional GET answered 304 is a violation.",
+   "token scan works on plaintext backends; statuses in any heuristic list are treated as storable", "DESIGN.md 4 C06"),
+ "C07": T("exploration", RM + "token-epoch monitor: after a successful unsafe exchange no body stored earlier for the equivalent target (or a same-origin URI named by Location/Content-Location) may come back unvalidated; random histories mixing methods",
+   "Negative half on every exchange of random histories.", "sequential histories only", "DESIGN.md 4 C07"),
+ "C08": T("exploration", RM + "scenario oracle over validation chains (304 with header updates / full 200, foreground and stale-while-revalidate background, several variants): follow-ups inside the new lifetime must come from the store with the right body, header block and restarted Age",
+   "The generator knows what must be served after each validation; any origin contact, wrong body, stale header block, Content-Length/hop-by-hop merge, non-restarted Age or lost variant is a violation.",
+   "scripted origin; +-1..2 s tolerance on Age", "DESIGN.md 4 C08"),
+ "C09": T("exploration", RM + "scenario oracle: store, non-invalidating noise, then an equivalent request (URI and header spellings the cache documents) inside the lifetime must be answered from the store without origin contact; memory, fs, encrypted fs and reopened fs backends",
+   "Catches 'safe but useless' regressions: any origin contact or foreign token for a fresh matching request is a violation.",
+   "only equivalences the cache documents are used; margins >= 2 s", "DESIGN.md 4 C09"),
+ "C10": T("fault_enumeration", RM + "recover()/nil-nil/error-origin monitor on every exchange of random histories incl. origin errors, 5xx, failing bodies; child process per batch so that a crash in a background goroutine is attributed to the journalled case",
+   "Panics, (nil,nil), errors without an origin failure and process deaths are violations.",
+   "upstreams that break the RoundTripper contract are out of scope", "DESIGN.md 4 C10"),
+ "C11": T("exploration", RM + "universal monitor comparing Age with the oracle's current age (+-1 s) and X-Httpcache-Status / X-From-Cache with what the upstream log shows, on every exchange of random histories",
+   "Wrong/missing/multiple Age on unvalidated from-store answers and status values inconsistent with the upstream log are violations.",
+   "HIT or STALE both accepted for stale serves", "DESIGN.md 4 C11"),
+ "C12": T("exploration", RM + "metamorphic pairs: the same scripted history with canonical and re-spelled Cache-Control (case, OWS, empty members, quoted arguments, field-line splits, order, extensions) must give identical observation vectors; huge delta-seconds vs 2147483648",
+   "Any difference of the per-exchange observation vector between spellings is a violation.",
+   "rewrites are meaning-preserving per RFC 9111 5.2; duplicates not generated", "DESIGN.md 4 C12"),
+ "C16": T("exploration", "Go race detector over random histories with background revalidation, plus snapshot comparison of every returned header map at return / quiescence / end of history",
+   "Race reports with a repository frame and any change of a returned header map after return are violations.",
+   "race detector sees only reached paths; report set varies run to run", "DESIGN.md 4 C16"),
+ "C18": T("exploration", RM + "universal monitor: an only-if-cached exchange must have no upstream call (foreground or background, after quiescence) and be a usable stored response or the synthesised 504",
+   "Any origin contact, any other result, or a stored response that needs validation is a violation.",
+   "virtual time; random histories with only-if-cached sprinkled in", "DESIGN.md 4 C18"),
 }
 
 NOT_YET = {}
